@@ -1,9 +1,10 @@
 (* C17 — Embedded optimisation and clustering algorithms keep their contracts.
-   Only the property theorems, each closed by `exact`. *)
-From VRP Require Import Base.Tac Model.Dbscan Proofs.DbscanP.
+   Only the property theorems, each closed by `exact` (or by evaluation for witnesses). *)
+From Coq Require Import Permutation.
+From VRP Require Import Base.Tac Model.Dbscan Model.Lkh Model.KMedoids Proofs.DbscanP Proofs.LkhP Proofs.KMedoidsP.
 Local Open Scope nat_scope.
 
-(* ---------------------------------------------------------------- density clustering (dbscan.rs :: create_clusters)
+(* ================================================================ density clustering (dbscan.rs :: create_clusters)
    For EVERY neighbourhood table (not necessarily symmetric or reflexive), min_points and point list the model of
    create_clusters terminates within its fuel and returns pairwise disjoint clusters (no point occurs twice in the
    concatenation), each starting with a core point p and containing only points density-reachable from p, and every
@@ -36,7 +37,109 @@ Theorem C17_dbscan_checker_implies_property : forall tbl minp pts cs,
   /\ (forall p, In p pts -> core tbl minp p -> exists c, In c cs /\ In p c).
 Proof. intros tbl minp pts cs H. apply dbscan_contract_spec. apply check_dbscan_iff. exact H. Qed.
 
-(* non-vacuity: a table with two clusters and a noise point *)
 Theorem C17_dbscan_nonvacuous :
   create_clusters [[0;1];[0;1;2];[1;2];[3];[4;5];[4;5]] 2 [0;1;2;3;4;5] = Some [[0;1;2];[4;5]].
 Proof. vm_compute. reflexivity. Qed.
+
+(* ================================================================ Lin-Kernighan re-sequencing (lkh/*.rs)
+   `ho` is the hash-map iteration order inside find_closest: any function that returns entries of the map. *)
+
+(* Tour::try_path: whatever edges are removed / added, a returned path has the tour's length, no repeated node,
+   starts at node 0 (= index_of(path[0]) used as a node id) and visits only endpoints of the new edge set *)
+Theorem C17_lkh_try_path_valid : forall t broken joined q,
+  try_path t broken joined = Some q ->
+  length q = length (tpath t) /\ NoDup q /\ hd_error q = Some 0
+  /\ forall x, In x q -> endp (new_edges t broken joined) x.
+Proof. exact try_path_sound. Qed.
+
+(* clause "returns permutations of the given nodes": for every cost matrix (symmetric or not), neighbour lists,
+   hash order, outer fuel and start path *)
+Theorem C17_lkh_permutation : forall cm nb ho,
+  (forall l l', ho l = Some l' -> forall e, In e l' -> In e l) ->
+  forall ofuel p q, optimize cm nb ho ofuel p = Found q ->
+  Permutation q p /\ (q = p \/ hd_error q = Some 0).
+Proof. exact optimize_ok. Qed.
+
+(* clause "that start at the same node": holds for start paths beginning with node 0 (the only shape the internal
+   caller lkh_search produces) ... *)
+Theorem C17_lkh_start_partial : forall cm nb ho,
+  (forall l l', ho l = Some l' -> forall e, In e l' -> In e l) ->
+  forall ofuel p q, hd_error p = Some 0 -> optimize cm nb ho ofuel p = Found q ->
+  Permutation q p /\ hd_error q = hd_error p.
+Proof. exact optimize_start0. Qed.
+
+(* ... and is violated by the public lkh_optimize otherwise (finding C17-F1; same input as corpus/C17/f1-*.json) *)
+Definition line8 : list (list Z) :=
+  map (fun i => map (fun j => Z.abs (Z.of_nat i - Z.of_nat j)) (seq 0 8)) (seq 0 8).
+Definition near8 : list (list nat) :=
+  [[1;2;3;4;5;6;7];[0;2;3;4;5;6;7];[1;3;0;4;5;6;7];[2;4;1;5;0;6;7];[3;5;2;6;1;7;0];[4;6;3;7;2;1;0];[5;7;4;3;2;1;0];[6;5;4;3;2;1;0]].
+Theorem C17_lkh_start_refuted :
+  exists q, optimize line8 near8 id_ho 100 [3;0;5;1;6;2;7;4] = Found q
+            /\ hd_error q <> hd_error [3;0;5;1;6;2;7;4]
+            /\ (forall i j, cost line8 i j = cost line8 j i).
+Proof.
+  exists [0;1;2;3;5;6;7;4]. split; [vm_compute; reflexivity|]. split; [discriminate|].
+  intros i j. unfold cost, line8.
+  destruct (Nat.lt_ge_cases i 8) as [Hi|Hi], (Nat.lt_ge_cases j 8) as [Hj|Hj].
+  - do 8 (destruct i as [|i]; [do 8 (destruct j as [|j]; [reflexivity|]); lia|]). lia.
+  - rewrite (nth_overflow (nth i _ _)); [|do 8 (destruct i as [|i]; [cbn; lia|]); lia].
+    rewrite (nth_overflow _ _ (n := j)); [|rewrite map_length, seq_length; exact Hj]. cbn. destruct i; reflexivity.
+  - rewrite (nth_overflow _ _ (n := i)); [|rewrite map_length, seq_length; exact Hi].
+    rewrite (nth_overflow (nth j _ _)); [|do 8 (destruct j as [|j]; [cbn; lia|]); lia]. cbn. destruct j; reflexivity.
+  - rewrite !(nth_overflow (map _ _)); try (rewrite map_length, seq_length; assumption). cbn. destruct i, j; reflexivity.
+Qed.
+
+(* clauses "always terminates" and "closed-tour cost never above the input's":
+     FULL STATEMENT (not proved):  forall symmetric cm, nb, ho, p:
+        (exists ofuel q, optimize cm nb ho ofuel p = Found q)   and
+        (optimize cm nb ho ofuel p = Found q -> cycle_cost cm q <= cycle_cost cm p).
+   What is missing: that a successful try_path inside the search returns the 2-regular graph tour \ X u Y as a closed
+   cycle (degree argument over the alternating trail), from which cost q = cost p - relink < cost p and termination
+   of the outer loop follow.  Both clauses are evaluated on every implementation output by the verified checker below
+   (and by the harness watchdog for termination). *)
+Theorem C17_lkh_checker_sound : forall cm input output,
+  check_lkh cm input output = [] <->
+  Permutation output input /\ hd_error output = hd_error input /\ (cycle_cost cm output <= cycle_cost cm input)%Z.
+Proof. exact check_lkh_iff. Qed.
+
+Theorem C17_lkh_nonvacuous :
+  optimize line8 near8 id_ho 100 [0;5;1;6;2;7;4;3] = Found [0;1;2;3;4;7;6;5]
+  /\ check_lkh line8 [0;5;1;6;2;7;4;3] [0;1;2;3;4;7;6;5] = [].
+Proof. vm_compute. split; reflexivity. Qed.
+
+(* ================================================================ k-medoids (kmedoids.rs)
+   d = distance function, chunks = how rayon splits the data in fold_reduce, ord = hash order of updated medoids *)
+Theorem C17_kmedoids_contract : forall d chunks ord data k,
+  (forall l, Permutation (ord l) l) -> concat (chunks data) = data ->
+  data <> [] -> k <= length (nodup Nat.eq_dec data) ->
+  Permutation (flat_map snd (create_kmedoids d chunks ord data k)) data
+  /\ (forall med c p med' c', In (med, c) (create_kmedoids d chunks ord data k) -> In p c ->
+                              In (med', c') (create_kmedoids d chunks ord data k) -> (d p med <= d p med')%Z).
+Proof. exact create_kmedoids_contract. Qed.
+
+(* the nearest-medoid clause needs no hypothesis at all *)
+Theorem C17_kmedoids_nearest : forall d chunks ord data k med c p med' c',
+  In (med, c) (create_kmedoids d chunks ord data k) -> In p c ->
+  In (med', c') (create_kmedoids d chunks ord data k) -> (d p med <= d p med')%Z.
+Proof. exact create_kmedoids_nearest. Qed.
+
+(* without k <= #distinct points the partition clause fails: everything is dropped (finding C17-F3) *)
+Theorem C17_kmedoids_partition_refuted : forall d ord p,
+  create_kmedoids d halves ord [p] 2 = [] /\ ~ Permutation (flat_map snd (create_kmedoids d halves ord [p] 2)) [p].
+Proof. exact kmedoids_k_exceeds. Qed.
+
+(* create_hierarchical_kmedoids on a single point hits medoid.expect("should be set") (finding C17-F2) *)
+Theorem C17_hkmedoids_single_point_refuted : forall d chunks ord p n,
+  create_hierarchical_kmedoids d chunks ord [p] (S n) = HPanic.
+Proof. exact hkmedoids_single_point_panics. Qed.
+
+Theorem C17_kmedoids_checker_sound : forall dm data m,
+  check_kmedoids dm data m = [] <->
+  Permutation (flat_map snd m) data
+  /\ (forall med c p med' c', In (med, c) m -> In p c -> In (med', c') m -> (dmat dm p med <= dmat dm p med')%Z).
+Proof. exact check_kmedoids_iff. Qed.
+
+Theorem C17_kmedoids_nonvacuous :
+  create_kmedoids (dmat line8) halves sort_nat [0;1;2;5;6;7] 2 = [(1, [0;1;2]); (6, [5;6;7])]
+  /\ check_kmedoids line8 [0;1;2;5;6;7] [(1, [0;1;2]); (6, [5;6;7])] = [].
+Proof. vm_compute. split; reflexivity. Qed.
